@@ -317,3 +317,125 @@ def generate(repo: Path, membrane_mod, innate_mod, clock=None) -> str:
                    f"({l}, {strs(a)}, {strs(e)}, {f}, {'true' if g else 'false'})" for l, a, e, f, g in resp) + "]"))
     out.append("\nend Operon.Gen.Gates")
     return "\n".join(out) + "\n"
+
+
+# ----------------------------------------------------------------------------------------------------------------
+# parse trees of the shipped regex signatures -> Operon/Gen/GatesRegex.lean
+# ----------------------------------------------------------------------------------------------------------------
+def _lean_str(x: str) -> str:
+    return '"' + "".join(ch if ch.isalnum() or ch in " _=-" else "?" for ch in x)[:40] + '"'
+
+
+def regex_tree(pattern: str, flags: int) -> str:
+    """`re`'s own parse tree of `pattern` as a term of `Operon.Gates.Rx.Re`.  Anything outside the constructs the
+    model gives a meaning to - look-arounds, back-references, possessive / atomic groups, inline flags, compile flags
+    other than IGNORECASE (| UNICODE) - becomes `.unsupported`, on which no theorem about the shipped table holds."""
+    import re
+    try:
+        import re._parser as P
+        import re._constants as K
+    except ImportError:                       # pragma: no cover
+        import sre_parse as P
+        import sre_constants as K
+    if flags & ~(re.IGNORECASE | re.UNICODE) or not flags & re.IGNORECASE:
+        return f".unsupported {_lean_str('flags=' + str(int(flags)))}"
+    try:
+        tree = P.parse(pattern, flags)
+    except Exception as e:                    # noqa: BLE001
+        return f".unsupported {_lean_str('parse ' + type(e).__name__)}"
+    cats = {"CATEGORY_DIGIT": (".digit", "false"), "CATEGORY_NOT_DIGIT": (".digit", "true"),
+            "CATEGORY_SPACE": (".space", "false"), "CATEGORY_NOT_SPACE": (".space", "true"),
+            "CATEGORY_WORD": (".word", "false"), "CATEGORY_NOT_WORD": (".word", "true")}
+    ats = {"AT_BOUNDARY": ".wordB", "AT_NON_BOUNDARY": ".notWordB", "AT_BEGINNING": ".bos",
+           "AT_BEGINNING_STRING": ".bos", "AT_END": ".eos", "AT_END_STRING": ".eosStrict"}
+
+    class Unsupported(Exception):
+        pass
+
+    def seq(items):
+        parts = [node(op, av) for op, av in items]
+        if not parts:
+            return ".eps"
+        out = parts[-1]
+        for x in reversed(parts[:-1]):
+            out = f".seq ({x}) ({out})"
+        return out
+
+    def setitem(op, av):
+        if op is K.LITERAL:
+            return f".lit {int(av)}"
+        if op is K.RANGE:
+            return f".range {int(av[0])} {int(av[1])}"
+        if op is K.CATEGORY and str(av) in cats:
+            c, n = cats[str(av)]
+            return f".cat {c} {n}"
+        raise Unsupported(f"set item {op} {av}")
+
+    def node(op, av):
+        if op is K.LITERAL:
+            return f".lit {int(av)}"
+        if op is K.NOT_LITERAL:
+            return f".notLit {int(av)}"
+        if op is K.ANY:
+            return ".any"
+        if op is K.IN:
+            neg = bool(av) and av[0][0] is K.NEGATE
+            items = [setitem(o, a) for o, a in (av[1:] if neg else av)]
+            return f".set {'true' if neg else 'false'} [{', '.join(items)}]"
+        if op is K.BRANCH:
+            alts = [seq(a) for a in av[1]]
+            out = alts[-1]
+            for x in reversed(alts[:-1]):
+                out = f".alt ({x}) ({out})"
+            return out
+        if op is K.SUBPATTERN:
+            group, add, dele, body = av
+            if add or dele:
+                raise Unsupported("inline flags")
+            return seq(body)
+        if op in (K.MAX_REPEAT, K.MIN_REPEAT):
+            lo, hi, body = av
+            mx = "none" if hi == K.MAXREPEAT else f"(some {int(hi)})"
+            return f".rep {int(lo)} {mx} ({seq(body)})"
+        if op is K.AT and str(av) in ats:
+            return f".at {ats[str(av)]}"
+        raise Unsupported(str(op))
+    try:
+        return seq(tree)
+    except Unsupported as e:
+        return f".unsupported {_lean_str(str(e))}"
+    except Exception as e:                    # noqa: BLE001
+        return f".unsupported {_lean_str('walk ' + type(e).__name__)}"
+
+
+def generate_regex(membrane_mod, innate_mod) -> str:
+    """(pattern code points, parse tree) for every regex signature of `Membrane.INNATE_SIGNATURES` and of
+    `InnateImmunity.DEFAULT_PATTERNS`, read from the imported classes (the compiled pattern object's own `.pattern` and
+    `.flags`: what `matches` really searches with)"""
+    def rows(sigs):
+        out = []
+        for s in sigs:
+            if not getattr(s, "is_regex", False):
+                continue
+            c = getattr(s, "_compiled", None)
+            if c is None:
+                tree = '.unsupported "not compiled"'
+            elif c.pattern != s.pattern:
+                tree = '.unsupported "compiled pattern differs from the pattern attribute"'
+            else:
+                tree = regex_tree(c.pattern, int(c.flags))
+            out.append(f"({_cps(s.pattern)}, {tree})")
+        return "[\n    " + ",\n    ".join(out) + "]" if out else "[]"
+    mrows = _guard(lambda: rows(membrane_mod.Membrane.INNATE_SIGNATURES))
+    irows = _guard(lambda: rows(innate_mod.InnateImmunity.DEFAULT_PATTERNS))
+    bad = '[([], .unsupported "table not readable")]'
+    return ("/- GENERATED by harness/vf/extract/e5_gates.py (generate_regex) from the imported classes on every run of\n"
+            "   ./check C10 — do not edit.  Parse trees (from `re`'s own parser) of the regex signatures of the two shipped\n"
+            "   tables; `.unsupported` = a construct / compile flag the model gives no meaning to (fail closed). -/\n"
+            "import Operon.Model.Regex\n"
+            "namespace Operon.Gen.Gates\nopen Operon.Gates.Rx\n\n"
+            "/-- regex signatures of Membrane.INNATE_SIGNATURES, in table order -/\n"
+            f"def membraneRegexes : List (List Nat × Re) := {mrows or bad}\n\n"
+            "/-- regex patterns of InnateImmunity.DEFAULT_PATTERNS, in table order -/\n"
+            f"def innateRegexes : List (List Nat × Re) := {irows or bad}\n\n"
+            "end Operon.Gen.Gates\n")
